@@ -10,6 +10,8 @@ namespace Liftbridge.Props.GoPartition
 open Liftbridge Liftbridge.GoMini Liftbridge.GoCode
 open Liftbridge.Gen.GoPartition Liftbridge.GoPartitionEnv
 
+attribute [local gomini] runFor_succ
+
 @[simp] theorem lk_truncateToHW : evalE.lookup' "truncateToHW" prog = some fn_partition_truncateToHW := by simp [prog, gomini]
 @[simp] theorem lk_truncateUncommitted : evalE.lookup' "truncateUncommitted" prog = some fn_partition_truncateUncommitted := by simp [prog, gomini]
 @[simp] theorem lk_sendLeaderOffsetRequest : evalE.lookup' "sendLeaderOffsetRequest" prog = none := by simp [prog, gomini]
